@@ -151,11 +151,11 @@ class InlineMethod(_Inliner):
         for file in resources:
             job_set.started_job(file.path)
             if file == self.resource:
-                changes.add_change(
-                    self._defining_file_changes(
-                        changes, remove=remove, only_current=only_current
-                    )
+                defining = self._defining_file_changes(
+                    changes, remove=remove, only_current=only_current
                 )
+                if defining is not None:
+                    changes.add_change(defining)
             else:
                 aim = None
                 if only_current and self.original == file:
@@ -210,6 +210,9 @@ class InlineMethod(_Inliner):
             end_offset,
             replacement,
         ).get_changed_module()
+        if result is None:
+            # nothing to inline here and the definition stays
+            return None
         return ChangeContents(self.resource, result)
 
     def _get_method_replacement(self):
